@@ -17,12 +17,14 @@ TRUSTED = [
     "Gen_util.v is regenerated from mutagen/_util.py on every run; the capacity-limited file object (Base.FileModel c_cap/c_partial) is modelled and tied by exhaustive correspondence with a Python stream raising OSError(ENOSPC)",
     "format-level saves are NOT modelled as monadic programs: that each listed format runs the proved skeleton (enlarge, then overwrite) is established by the direct oracle over every capacity value, not by a theorem",
 ]
+RULE_EXTRA = ("each attempt uses a freshly loaded object (not every loaded object can be deep-copied: FLAC cue sheets); FLAC files with an ID3v2 prefix are also "
+              "saved with deleteid3=True. ")
 RULE = ("correspondence: resize_file/insert_bytes/resize_bytes on files of length <= L for every argument tuple that grows the file, every capacity "
         "in [len, len+growth) and partial-write counts {0,1,3}, BUF in a small set; bytes, exception (errno) and position compared. "
         "direct oracle: every kind x sample x tag growth (a few bytes, ~3 KB, ~70 KB with a patched small copy buffer): one save per remaining-capacity "
         "value 0..growth-1 (all values when growth <= 400, else the first 60, a stride, and the last 20) x partial-write variants; listed formats "
         "must leave the file byte-identical and raise MutagenError, the others must keep the audio/foreign data. non-trivial = the save needed to grow the file; "
-        "distinct by (kind, sample, growth, capacity, partial)")
+        "distinct by (kind, sample, growth, capacity, partial). " + RULE_EXTRA)
 MANIFEST = {
     "text": "model full, runtime partial: theorems (all capacities inside the growth window, all partial-write counts, all buffer sizes) for the regenerated "
             "resize_file/insert_bytes and for the resize-then-overwrite skeleton every contiguous-region save uses; that each listed format follows the skeleton "
